@@ -36,6 +36,15 @@ def gen_history(rng, model, g):
     L = int(rng.integers(3, 26))
     h = model.h
     ops = []
+    if rng.random() < 0.4:
+        # a tighter joint-deflection limit (public setter), so that in-workspace poses sit on both sides of it; re-spin first in half of them:
+        # the deflection is measured against the neutral leg directions of the *current* joint arrangement
+        ops.append({"op": "setMaxAngleDev", "rad": float(rng.uniform(0.15, 0.9))})
+        if rng.random() < 0.5:
+            ops.append({"op": "spin", "rot": float(rng.uniform(-PI, PI))})
+        for _ in range(int(rng.integers(1, 4))):
+            ops.append({"op": "IK", "rel": splib.gen_rel_pose(rng, h).tolist(), "protect": False})
+            ops.append({"op": "validate", "donothing": True})
     for _ in range(L):
         k = gen.pick(rng, ["IK", "IK", "IK_out", "IK_protect", "FK", "FK", "FK_out", "FK_out", "FK_out", "FK_reverse", "move", "spin", "validate", "validate_do",
                            "invjac", "static", "carry", "randomPos", "randomPos", "getters"])
@@ -157,7 +166,7 @@ def run_history(case, ctx, bm):
                 bad.append("top_below_bottom")
             if sw[3] and np.any(np.diag(want[:3, :3]) <= sp.plate_rotation_limit - 1e-4 - 1e-9):
                 bad.append("plate_tilt")
-            if sw[2] and not model_spun_away[0]:
+            if sw[2]:
                 db, dt = leg_dirs_local(Bm, Tm)
                 nb, nt = leg_dirs_local(np.eye(4), model.neutral_rel())
                 ang = []
@@ -166,8 +175,14 @@ def run_history(case, ctx, bm):
                     ang += list(np.arccos(np.clip(c, -1, 1)))
                 if max(ang) > sp.joint_deflection_max + 1e-6:
                     bad.append("joint_deflection")
+                    try:
+                        extra_d = {"deflection_oracle": [float(x) for x in ang], "deflection_library": np.asarray(sp.getJointAnglesFromNorm(), dtype=float).tolist(),
+                                   "deflection_max": float(sp.joint_deflection_max)}
+                    except Exception as e:
+                        extra_d = {"deflection_library": repr(e)[:100]}
             if bad:
-                viol("I4.valid_means_valid", "valid_but_" + "+".join(bad), lens=lens, rel_diag=np.diag(want[:3, :3]), z=want[2, 3])
+                viol("I4.valid_means_valid", "valid_but_" + "+".join(bad), lens=lens, rel_diag=np.diag(want[:3, :3]), z=want[2, 3],
+                     **(extra_d if "joint_deflection" in bad else {}))
                 ok = False
         if pure and before is not None:
             ctx.clause("I5.pure_queries")
@@ -218,6 +233,9 @@ def run_history(case, ctx, bm):
                     model_spun_away[0] = True
                 model.spin(op["rot"])
                 sp.spinCustom(op["rot"])
+            elif k == "setMaxAngleDev":
+                sp.setMaxAngleDev(op["rad"], degrees=False)
+                ctx.cls("limits:tight_joint_deflection")
             elif k == "validate":
                 valid_flag = sp.validate(op["donothing"])
             elif k == "invjac":
